@@ -109,7 +109,7 @@ class L2Runner:
         l1sig = dict(x.split("=", 1) for x in res[0][7:].split() if "=" in x)["sig"] if res else "?"
         meta = {}
         pre, post = [], []
-        for l in open(os.path.join(md, "meta.txt"), errors="replace").read().split("\n"):
+        for l in open(os.path.join(md, "meta.txt"), encoding="utf-8", errors="surrogateescape").read().split("\n"):
             if l.startswith("prearg "):
                 pre.append(l[7:])
             elif l.startswith("postarg "):
@@ -120,8 +120,12 @@ class L2Runner:
         src = int(meta.get("src", "0"))
         path = os.path.join(self.fs, "input.in")
         source = {0: "-", 1: path, 2: os.path.join(self.fs, "does-not-exist.in"), 3: self.fs, 4: "", 6: os.path.join(self.fs, meta.get("longname", "x"))}.get(src)
-        if src == 1:
+        have_file = src == 1 or meta.get("materialise") == "1"
+        if have_file:
             shutil.copyfile(os.path.join(md, "doc.bin"), path)
+        subst = lambda x: x.replace("<FILE>", path).replace("<MISSING>", os.path.join(self.fs, "does-not-exist.in")).replace("<DIR>", self.fs)
+        unesc = lambda x: x.replace("\\\\", "\0").replace("\\n", "\n").replace("\0", "\\")
+        pre, post = [subst(unesc(x)) for x in pre], [subst(unesc(x)) for x in post]
         argv = ["gm2calc.x"] + pre + (["--%s-input-file=%s" % (meta.get("type", "slha"), source)] if src != 5 else []) + post
         cs, cm = (meta.get("chunk", "0 0").split() + ["0", "0"])[:2]
         env = dict(os.environ)
@@ -138,7 +142,7 @@ class L2Runner:
         except subprocess.TimeoutExpired:
             rc, out, err = None, b"", b""
         finally:
-            if src == 1:
+            if have_file:
                 try:
                     os.unlink(path)
                 except OSError:
@@ -252,6 +256,7 @@ def main(a):
         ck = "CONFIG" if thorough else "CONFIGQ"
         parts["config"] = batch(ck, 0, 0, counts.get(ck, 0))
         parts["arglen"] = batch("ARGLEN", 0, 0, counts.get("ARGLEN", 0))
+        parts["cmdline"] = batch("CMDLINE", 0, 0, counts.get("CMDLINE", 0))
         parts["boundary"] = batch("BOUNDARY", 0, 0, counts.get("BOUNDARY", 0))
         sk = "SCALE" if thorough else "SCALEQ"
         parts["scale"] = batch(sk, 0, 0, counts.get(sk, 0))
@@ -320,7 +325,7 @@ def main(a):
                         twin_cands.append({"run": r, "kind": kind, "seed": seed})
         t_twin = time.time() - t1
 
-        kinds = {"corpus": "CORPUS", "prefix": pk, "token": tk, "random": "RUNS", "light": "LIGHT", "config": ck, "arglen": "ARGLEN", "boundary": "BOUNDARY", "scale": sk}
+        kinds = {"corpus": "CORPUS", "prefix": pk, "token": tk, "random": "RUNS", "light": "LIGHT", "config": ck, "arglen": "ARGLEN", "cmdline": "CMDLINE", "boundary": "BOUNDARY", "scale": sk}
         cands = []
         for name, part in parts.items():
             for c in part["candidates"]:
@@ -507,6 +512,9 @@ def main(a):
                     "argument_lengths": {"kind": "ARGLEN", "runs": parts["arglen"]["executed"], "of": counts.get("ARGLEN", 0),
                                          "what": "every length 1..640 and ten larger ones (to 65536) of: an unopenable input file name (one component / nested), a long unknown option, a long second input option, a long bare word; x 3 input types x {SLHA-type, detailed} output",
                                          "complete": parts["arglen"]["executed"] == counts.get("ARGLEN", 0)},
+                    "command_lines": {"kind": "CMDLINE", "runs": parts["cmdline"]["executed"], "of": counts.get("CMDLINE", 0),
+                                      "what": "every command line of one, two or three atoms out of an alphabet of 36 (help/version options, the three input options with stdin / existing file / missing file / directory / empty name, misspelt, truncated, prefixed, doubled and decorated variants, empty and non-UTF-8 words)",
+                                      "complete": parts["cmdline"]["executed"] == counts.get("CMDLINE", 0)},
                     "boundary_documents": {"kind": "BOUNDARY", "runs": parts["boundary"]["executed"], "of": counts.get("BOUNDARY", 0),
                                            "what": "one CR / one NUL inserted at every offset of input/example.*; the examples padded to 64 KiB with one special byte (CR, LF, NUL, #, space, letter) at every offset 2^k-2..2^k+1, k=8..16; %d curated edge documents (DOS/Mac line endings, torn between CR and LF, no final newline, torn inside the first block header, lengths exactly at 2^k-1, 2^k, 2^k+1); each via stdin and via path" % counts.get("EDGE", 0),
                                            "complete": parts["boundary"]["executed"] == counts.get("BOUNDARY", 0)},
